@@ -1109,6 +1109,18 @@ fn c04_stream(r: &Rng, out: &mut Out, n: usize) {
     }
     let t = TMsg::Data { p: true, len: Some(65012), tid: 65535, sid: 0, nsnr: Some((65535, 0)), off: None, data: r.bytes(65000) };
     out.push(format!("rt {}", t.render()));
+    // every payload length 1..=300 and the powers of two up to 32 768 (one below, at, one above), field combinations in turn
+    let mut lens: Vec<usize> = (1..=300).collect();
+    for b in 9..=15 {
+        lens.extend([(1usize << b) - 1, 1 << b, (1 << b) + 1]);
+    }
+    for (i, dl) in lens.iter().enumerate() {
+        let (l, s, o, p) = (i & 1 != 0, i & 2 != 0, i & 4 != 0, i & 8 != 0);
+        let off = if o { Some(((i / 16) % (*dl)) as u16) } else { None };
+        let total = data_header_len(l, s, o) + dl;
+        let t = TMsg::Data { p, len: if l { Some(total as u16) } else { None }, tid: r.u16x(), sid: r.u16x(), nsnr: if s { Some((r.u16x(), r.u16x())) } else { None }, off, data: r.bytes(*dl) };
+        out.push(format!("rt {}", t.render()));
+    }
     // without Length the payload is whatever the datagram holds: sizes around 64 KiB and well beyond
     for (i, total) in [65530usize, 65534, 65535, 65536, 65537, 65540, 70000, 131080].iter().enumerate() {
         let nsnr = if i % 2 == 0 { None } else { Some((r.u16x(), r.u16x())) };
@@ -1155,6 +1167,15 @@ fn enc_stream(r: &Rng, out: &mut Out, n: usize, prefixes: bool, oversize: bool) 
         }
     }
     if prefixes {
+        // every prefix length 0..=40 and the ones around 255 / 1023 / 4095 / 16383, each kind of value behind it
+        let mut pls: Vec<usize> = (0..=40).collect();
+        pls.extend([254usize, 255, 256, 257, 1022, 1023, 1024, 1025, 4095, 4096, 4097, 16383, 16384]);
+        for (i, pl) in pls.iter().enumerate() {
+            let p = r.bytes(*pl);
+            out.push(format!("enc {} {}", hex(&p), gen_control(r, 3, false).render()));
+            out.push(format!("enca {} {}", hex(&p), gen_avp(r, i % 5 == 0).render()));
+            out.push(format!("enc {} {}", hex(&p), gen_data(r, true).render()));
+        }
         // a writer that already holds a lot: around the largest UDP payload (65507), the 16-bit boundary and beyond
         for pl in [65400usize, 65500, 65507, 65535, 65536, 65537, 70000, 131072] {
             let p = r.bytes(pl);
@@ -1259,6 +1280,21 @@ fn hide_stream(r: &Rng, out: &mut Out, n: usize, op: &str) {
             j += 1;
         }
     }
+    // every block count 1..=63: 2 + value + padding exactly k blocks, one octet short of it, one octet over
+    for k in 1..=63usize {
+        for d in [0isize, -1, 1] {
+            let total = (16 * k) as isize + d;
+            if total < 3 || total > 1008 {
+                continue;
+            }
+            let total = total as usize;
+            let vl = (1 + (k * 7) % 40).min(total - 2);
+            let lpl = total - 2 - vl;
+            let kind = BYTE_KINDS[k % 9];
+            let t = TAvp::new(kind, vec![hex(&r.bytes(vl))]);
+            out.push(format!("{} {} {} {} {} {}", op, t.render(), hex(&secret(r)), hex(&r.bytes(4)), hex(&r.bytes(lpl)), hex(&r.bytes(16))));
+        }
+    }
     for (i, t) in systematic_avps(false).iter().enumerate() {
         if t.kind == "Hidden" {
             continue;
@@ -1357,6 +1393,20 @@ fn reveal_inner_stream(r: &Rng, out: &mut Out, thorough: bool) {
 /// C13: ciphertexts built so that the decrypted length field takes chosen values
 fn reveal_stream(r: &Rng, out: &mut Out, n: usize) {
     reveal_inner_stream(r, out, n > 100000);
+    // every value length that is a multiple of 16 up to 1024 (crafted so that it decrypts to a well-formed value of
+    // exactly that extent, and to one that claims one octet more), and the lengths next to each multiple
+    for k in 1..=64usize {
+        let vlen = 16 * k;
+        let s = secret(r);
+        let rv = r.bytes(4);
+        for dl in [0usize, 1] {
+            let mut plain = ((6 + vlen - 2 + dl) as u16).to_be_bytes().to_vec();
+            plain.extend(r.bytes(vlen - 2));
+            out.push(format!("reveal Hidden(7,{}) {} {}", hex(&hide_raw(7, &s, &rv, &plain)), hex(&s), hex(&rv)));
+        }
+        out.push(format!("reveal Hidden(7,{}) {} {}", hex(&r.bytes(vlen - 1)), hex(&s), hex(&rv)));
+        out.push(format!("reveal Hidden(7,{}) {} {}", hex(&r.bytes(vlen + 1)), hex(&s), hex(&rv)));
+    }
     // every secret length 0..=130 against values of one, two and three chunks, random and crafted
     for sl in 0..=130usize {
         for chunks in 1..=3usize {
@@ -1778,7 +1828,107 @@ fn c18_stream(r: &Rng, out: &mut Out, n: usize) {
     out.push("wr at1:.".to_string());
 }
 
+/// the single faults of C20 by rule: every small value of the field at fault (and the 16-bit corners), at the
+/// first possible and at a later position, so that no value of the field depends on the random stream
+fn c20_by_rule(r: &Rng, out: &mut Out) {
+    let base = |r: &Rng| -> Vec<Vec<u8>> { vec![mt_record(r), good_record(r), good_record(r)] };
+    let corners = [0x00ffu16, 0x0100, 0x0101, 0x1234, 0x7fff, 0x8000, 0xff00, 0xfffe, 0xffff];
+    for x in (0..=64u16).chain(corners) {
+        // unknown attribute type
+        if x == 20 || x >= 40 {
+            for pos in [1usize, 3] {
+                let mut recs = base(r);
+                recs.insert(pos, record(1, 0, x, &r.bytes((x % 5) as usize)));
+                out.push(format!("sf 111 {} UnknownAvp({})", hex(&assemble(0x1320, 1, 2, 3, 4, &recs)), x));
+            }
+        }
+        // unknown message-type code, first and later
+        if x == 0 || x == 5 || x == 13 || x >= 17 {
+            let mut recs = base(r);
+            recs[0] = record(1, 0, 0, &x.to_be_bytes());
+            out.push(format!("sf 111 {} UnknownMessageType({})", hex(&assemble(0x1320, 1, 2, 3, 4, &recs)), x));
+            let mut recs = base(r);
+            recs.insert(2, record(1, 0, 0, &x.to_be_bytes()));
+            out.push(format!("sf 111 {} UnknownMessageType({})", hex(&assemble(0x1320, 1, 2, 3, 4, &recs)), x));
+        }
+        // vendor id
+        if x != 0 {
+            let mut recs = base(r);
+            let mut rec = good_record(r);
+            rec[2] = (x >> 8) as u8;
+            rec[3] = x as u8;
+            recs.insert(1 + (x as usize % 3), rec);
+            out.push(format!("sf 111 {} UnsupportedVendorId({})", hex(&assemble(0x1320, 1, 2, 3, 4, &recs)), x));
+        }
+        // error-type code of a Result Code AVP, with and without a message, behind several result codes
+        if x >= 9 {
+            for (k, rc) in [0u16, 1, 2, 3, 7, 11, 255].iter().enumerate() {
+                let mut p = rc.to_be_bytes().to_vec();
+                p.extend_from_slice(&x.to_be_bytes());
+                if k % 2 == 1 {
+                    p.extend_from_slice(b"why");
+                }
+                let mut recs = base(r);
+                recs.insert(1 + k % 3, record(1, 0, 1, &p));
+                out.push(format!("sf 111 {} InvalidResultCodeErrorType({})", hex(&assemble(0x1320, 1, 2, 3, 4, &recs)), x));
+            }
+        }
+        // offset size beyond what follows, with every field combination of the data header
+        if x >= 1 {
+            for bits in 0..8u16 {
+                let (l, s, p) = (bits & 1 != 0, bits & 2 != 0, bits & 4 != 0);
+                let dl = (x as usize).saturating_sub(1).min(6);
+                let w: u16 = 0x4020 | if l { 0x0200 } else { 0 } | if s { 0x1000 } else { 0 } | if p { 0x8000 } else { 0 };
+                let mut v = w.to_be_bytes().to_vec();
+                if l {
+                    v.extend_from_slice(&((data_header_len(true, s, true) + dl) as u16).to_be_bytes());
+                }
+                v.extend_from_slice(&[0, 7, 0, 9]);
+                if s {
+                    v.extend_from_slice(&[0, 1, 0, 2]);
+                }
+                v.extend_from_slice(&x.to_be_bytes());
+                v.extend(r.bytes(dl));
+                out.push(format!("sf 111 {} InvalidOffset({})", hex(&v), x));
+            }
+        }
+    }
+    // the attribute type of a truncated AVP, every kind at every too-short length, and of a non-UTF-8 one
+    for attr in 0..=39u16 {
+        if attr == 20 || attr == 39 {
+            continue;
+        }
+        for l in 0..min_len(attr) {
+            let mut recs = base(r);
+            if attr == 0 {
+                recs[0] = record(1, 0, 0, &r.bytes(l));
+            } else {
+                recs.insert(1 + l % 3, record(1, 0, attr, &r.bytes(l)));
+            }
+            out.push(format!("sf 111 {} IncompleteAVP({})", hex(&assemble(0x1320, 1, 2, 3, 4, &recs)), attr));
+        }
+    }
+    for (attr, pre) in [(8u16, vec![]), (21, vec![]), (22, vec![]), (23, vec![]), (1, vec![0u8, 1, 0, 2]), (12, vec![0u8, 16, 3])] {
+        for bad in [vec![0xffu8], vec![0x61, 0xc0, 0x80], vec![0xed, 0xa0, 0x80], vec![0xf4, 0x90, 0x80, 0x80], vec![0xe2, 0x82], vec![0x61, 0x80]] {
+            let mut p = pre.clone();
+            p.extend_from_slice(&bad);
+            let mut recs = base(r);
+            recs.insert(2, record(1, 0, attr, &p));
+            out.push(format!("sf 111 {} InvalidUtf8({})", hex(&assemble(0x1320, 1, 2, 3, 4, &recs)), attr));
+        }
+    }
+    // the version nibble, every value but 2, control and data, under the option sets that check it
+    for x in (0..16u16).filter(|x| *x != 2) {
+        for o in ["111", "010", "011", "110"] {
+            let flags = (0x1320 & !0x00F0) | (x << 4);
+            out.push(format!("sf {} {} InvalidVersion({})", o, hex(&assemble(flags, 1, 2, 3, 4, &base(r))), x));
+            out.push(format!("sf {} {} InvalidVersion({})", o, hex(&[0x00, (x as u8) << 4, 0, 7, 0, 9, 0xaa]), x));
+        }
+    }
+}
+
 fn c20_stream(r: &Rng, out: &mut Out, n: usize, thorough: bool) {
+    c20_by_rule(r, out);
     for x in 0..=65535u32 {
         out.push(format!("name {}", x));
     }
@@ -1821,7 +1971,7 @@ fn c20_stream(r: &Rng, out: &mut Out, n: usize, thorough: bool) {
         match i % 8 {
             0 => {
                 // version nibble
-                let x = *r.pick(&[0u16, 1, 3, 4, 7, 8, 15]);
+                let x = *r.pick(&[0u16, 1, 3, 4, 5, 6, 7, 8, 9, 10, 11, 12, 13, 14, 15]);
                 let flags = (0x1320 & !0x00F0) | (x << 4);
                 let img = if r.chance(1, 2) {
                     assemble(flags, tid, sid, ns, nr, &recs)
